@@ -137,6 +137,14 @@ func deriveCmdLine(t *Trans) *Derived {
 		if !argsOK(args) {
 			return nil
 		}
+		// the model knows Goit's directory only as "exists": arguments inside it are compared only when
+		// they name something `init` always creates
+		for _, a := range args {
+			c := cleanArg(a)
+			if strings.HasPrefix(c, ".goit/") && !map[string]bool{".goit/HEAD": true, ".goit/config": true, ".goit/objects": true, ".goit/refs": true, ".goit/refs/heads": true, ".goit/refs/tags": true}[c] {
+				return nil
+			}
+		}
 		line := fmt.Sprintf("cmd.add %s %s %s %s %s", entriesOut(pre.Index), filesOut(pre.Files), dirsOut(pre.Dirs), ignoreOut(pre), argsOut(args))
 		impl := "err"
 		if t.Res.Class == "ok" {
